@@ -276,6 +276,44 @@ let cmap_cmd toks =
     | _ -> raise (Unmodelled "ops is not a list") in
   "ok" ^ jv_str (JObj (map_run ops m0))
 
+(* ---- concrete JSON codec: trees as  n | t | f | N<hex> | S<hex> | A<count> .. | O<count> (S<hex> v).. *)
+open PersistJson
+let rec parse_json (toks : string list) : json * string list =
+  match toks with
+  | [] -> failwith "json: eof"
+  | t :: rest ->
+    let body = Stdlib.String.sub t 1 (Stdlib.String.length t - 1) in
+    (match t.[0] with
+     | 'n' -> (JN, rest) | 't' -> (JB true, rest) | 'f' -> (JB false, rest)
+     | 'N' -> (JNumT (bytes_of_hex body), rest)
+     | 'S' -> (JStrT (bytes_of_hex body), rest)
+     | 'A' ->
+       let rec go k acc toks = if k = 0 then (Stdlib.List.rev acc, toks) else
+           let (v, toks') = parse_json toks in go (k - 1) (v :: acc) toks' in
+       let (l, rest') = go (int_of_string body) [] rest in (JA l, rest')
+     | 'O' ->
+       let rec go k acc toks = if k = 0 then (Stdlib.List.rev acc, toks) else
+           match parse_json toks with
+           | (JStrT key, toks') -> let (v, toks'') = parse_json toks' in go (k - 1) ((key, v) :: acc) toks''
+           | _ -> failwith "json: key" in
+       let (l, rest') = go (int_of_string body) [] rest in (JO l, rest')
+     | _ -> failwith ("json: token " ^ t))
+let rec show_json (b : Buffer.t) (v : json) : unit =
+  let add s = Buffer.add_char b ' '; Buffer.add_string b s in
+  match v with
+  | JN -> add "n" | JB true -> add "t" | JB false -> add "f"
+  | JNumT t -> add ("N" ^ hex_of_bytes t) | JStrT t -> add ("S" ^ hex_of_bytes t)
+  | JA l -> add ("A" ^ string_of_int (Stdlib.List.length l)); Stdlib.List.iter (show_json b) l
+  | JO l -> add ("O" ^ string_of_int (Stdlib.List.length l));
+    Stdlib.List.iter (fun (k, v) -> add ("S" ^ hex_of_bytes k); show_json b v) l
+(* jp <0|1> <tree>: the model printer;  jq <hex>: the model parser *)
+let jp ind toks =
+  let (v, _) = parse_json toks in
+  (if wfj v then "ok " else "notwf ") ^ hex_of_bytes (jprint (ind = "1") v)
+let jq h = match jparse (bytes_of_hex h) with
+  | Some v -> let b = Buffer.create 256 in show_json b v; "ok" ^ Buffer.contents b
+  | None -> "none"
+
 let guarded f toks = try f toks with Unmodelled m -> "unmodelled " ^ m
 
 let handle = function
@@ -285,6 +323,8 @@ let handle = function
   | "entry" :: toks -> guarded entry toks
   | "pairs" :: toks -> guarded pairs toks
   | "cmap" :: toks -> guarded cmap_cmd toks
+  | "jp" :: ind :: toks -> jp ind toks
+  | ["jq"; h] -> jq h
   | ["hexrt"; h] -> hexrt h
   | ["unhex"; s] -> unhex s
   | _ -> "bad-request"
